@@ -234,9 +234,9 @@ def case_forms(mon, y, m, d, h, mi, us):
         except Exception as ex:
             forms[name] = repr(ex)
 
-    def via_set(*a):
+    def via_set(*a, **kw):
         e = Epoch(12345.678)
-        e.set(*a)
+        e.set(*a, **kw)
         return e
 
     add("separate", lambda: Epoch(y, m, d, h, mi, s))
@@ -257,6 +257,15 @@ def case_forms(mon, y, m, d, h, mi, us):
     add("copy", lambda: Epoch(Epoch(y, m, d, h, mi, s)))
     add("set-copy", lambda: via_set(Epoch(y, m, d, h, mi, s)))
     add("from-jde", lambda: Epoch(Epoch(y, m, d, h, mi, s).jde()))
+    # the constructor's options spelled out with their default values
+    add("utc=False", lambda: Epoch(y, m, d, h, mi, s, utc=False))
+    add("local=False", lambda: Epoch(y, m, d, h, mi, s, local=False))
+    add("utc=False,local=False-tuple",
+        lambda: Epoch((y, m, d, h, mi, s), local=False, utc=False))
+    add("set-jde-utc=False", lambda: via_set(Epoch(y, m, d, h, mi, s).jde(),
+                                             utc=False))
+    add("set-epoch-local=False", lambda: via_set(Epoch(y, m, d, h, mi, s),
+                                                 local=False))
     add("check_input_date-separate",
         lambda: Epoch.check_input_date(y, m, d + frac))
     add("check_input_date-tuple",
